@@ -361,7 +361,7 @@ impl Scenario for ReplScenario {
                 "{}|{:?}|{:?}|{:?}",
                 worterbuch::verif::snapshot(&leader.wb),
                 fps,
-                tainted.iter().map(|(k, v)| (k, v.len())).collect::<Vec<_>>(),
+                tainted,
                 tainted_regs
             ));
             Some(StepOut {
@@ -398,6 +398,8 @@ pub fn scenario(open: BTreeSet<String>, followers: usize) -> ReplScenario {
     ops.push(LOp::Api(Op::Set(0, s("a"), json!(1))));
     ops.push(LOp::Api(Op::Set(1, s("a"), json!(2))));
     ops.push(LOp::Api(Op::Set(1, s("g/x"), json!(1))));
+    // a user key next to the $SYS subtree that the state export strips
+    ops.push(LOp::Api(Op::Set(1, s("$SYSx/k"), json!(1))));
     ops.push(LOp::Api(Op::Set(0, s("a/?"), json!(1))));
     ops.push(LOp::Api(Op::CSet(0, s("c"), json!(1), 0)));
     ops.push(LOp::Api(Op::CSet(1, s("c"), json!(2), 1)));
